@@ -155,6 +155,8 @@ fn check_growth(case: &C01Case) -> CaseResult {
         "prev": "", "cur": "", "results": [], "input_len": script.len(),
         // just above the judged bound: a script that passes it is stopped there
         "live_cap": MEM_BASE + MEM_PER_BYTE * script.len() + (8 << 20),
+        // reaching the cap takes ~10 s of re-serializing the growing values (more on a loaded machine)
+        "watchdog_s": 120,
     });
     let resp = isolated(&input);
     rep.evals += 1;
